@@ -399,6 +399,22 @@ func cmdCheck(args []string) int {
 		}
 		violLines = append(violLines, line)
 	}
+	// bounded stand-ins: functions that cannot be brought within the verifier's reach get a bounded check of the real code
+	// (labelled bounded, never counted as proved); a failing case is a violation with its input
+	standins := runBoundedStandins(prop)
+	for _, si := range standins {
+		if si["result"] == "violation" {
+			nviol++
+			content := map[string]interface{}{"obligation": "bounded:" + fmt.Sprint(si["function"]), "kind": "bounded", "result": "counterexample found on the real code",
+				"failing_input": si["failing_input"], "bound": si["bound"], "harness_source": si["harness_source"], "harness_pkg": si["harness_pkg"], "harness_file": si["harness_file"], "harness_run": si["harness_run"]}
+			path := writeReplayFile(prop, "bounded:"+fmt.Sprint(si["function"]), content)
+			violLines = append(violLines, fmt.Sprintf("VIOLATION property=%s replay=%s obligation=bounded:%s counterexample replayed on the real code", prop, path, si["function"]))
+			delete(si, "harness_source")
+		} else {
+			delete(si, "harness_source")
+		}
+	}
+	boundedStandins = standins
 	sort.Strings(knownHit)
 	for _, l := range dedup(knownHit) {
 		fmt.Println(l)
@@ -596,6 +612,9 @@ func writeEvidence(prop, tier string, seed int, pr *PropRun, failures []*Failure
 			slow = slow[:12]
 		}
 		cov["slowest_obligations"] = slow
+		if len(boundedStandins) > 0 {
+			cov["bounded_standins"] = boundedStandins
+		}
 		cov["solve_wall_s"] = solveS
 		cov["load_s"] = pr.loadSecs
 		cov["obligation_kinds"] = kinds
@@ -853,4 +872,58 @@ func (w *World) checkImplementers(key string, c *Contract) (keys []string, errs 
 		}
 	}
 	return keys, errs
+}
+
+var boundedStandins []map[string]interface{}
+
+type boundedStandin struct {
+	Properties []string `json:"properties"`
+	Function   string   `json:"function"`
+	Reason     string   `json:"reason"`
+	Pkg        string   `json:"pkg"`
+	File       string   `json:"file"`
+	Inject     string   `json:"inject"`
+	Run        string   `json:"run"`
+	Bound      string   `json:"bound"`
+}
+
+// runBoundedStandins runs the bounded checks registered in /verif/replay/bounded.json for this property on the real code
+// (go test -overlay, nothing is written into the repository).
+func runBoundedStandins(prop string) []map[string]interface{} {
+	b, err := os.ReadFile(filepath.Join(verifDir, "replay", "bounded.json"))
+	if err != nil {
+		return nil
+	}
+	var list []boundedStandin
+	if json.Unmarshal(b, &list) != nil {
+		return nil
+	}
+	var out []map[string]interface{}
+	for _, bs := range list {
+		if !has(bs.Properties, prop) {
+			continue
+		}
+		src, err := os.ReadFile(filepath.Join(verifDir, "replay", bs.File))
+		if err != nil {
+			continue
+		}
+		t0 := time.Now()
+		res, _ := runGoTest(bs.Pkg, bs.Inject, string(src), bs.Run)
+		rep := map[string]interface{}{"function": bs.Function, "why_not_deductive": bs.Reason, "bound": bs.Bound, "label": "BOUNDED (not proved)",
+			"seconds": time.Since(t0).Seconds(), "harness_pkg": bs.Pkg, "harness_file": bs.Inject, "harness_run": bs.Run, "harness_source": string(src)}
+		switch {
+		case strings.Contains(res, "CONFIRMED:"):
+			rep["result"] = "violation"
+			rep["failing_input"] = extractLine(res, "CONFIRMED:")
+		case strings.Contains(res, "BOUNDED-CASES:"):
+			rep["result"] = "held on every case within the bound"
+			rep["cases"] = strings.TrimSpace(strings.SplitN(extractLine(res, "BOUNDED-CASES:"), "BOUNDED-CASES:", 2)[1])
+		default:
+			// the harness did not run to completion (the tree does not build, or the function's signature changed)
+			rep["result"] = "violation"
+			rep["failing_input"] = "the bounded harness did not complete: " + tailStr(res, 400)
+		}
+		out = append(out, rep)
+	}
+	return out
 }
